@@ -193,8 +193,11 @@ PROPS = {'stream': prop_stream}
 def op_strategy():
     ai, ui = st.integers(0, 7), st.integers(0, 9)
     frames = st.lists(st.integers(0, 39), max_size=12)
+    # the header count is a full 64-bit word: mostly small, sometimes far above anything the data records can supply
+    count = st.one_of(st.integers(0, 14), st.integers(0, 14), st.integers(0, 14),
+                      st.sampled_from([2 ** 32, 2 ** 32 + 2, 2 ** 32 + 5, 2 ** 31, 0xffffffff, 2 ** 63, 2 ** 63 + 3, 2 ** 64 - 1, 2 ** 48 + 1]))
     sample = st.tuples(st.just('sample'), st.sampled_from([0x08, 0x09, 0x08, 0x3fff, 0x01, 0]), st.sampled_from([True, True, True, False]),
-                       st.integers(0, 14), frames, st.booleans())
+                       count, frames, st.booleans())
     mp = st.tuples(st.just('map'), ai, ui)
     sc = st.tuples(st.just('sc'), ai, ui)
     launch = st.tuples(st.just('launch'), st.lists(st.one_of(mp, sc, sc, sample), max_size=5))
